@@ -2,7 +2,9 @@
 from specs import streams, s3
 
 LEVEL = 'proof'
-UNITS = s3.prepare_units('C16') + s3.method_units('C16') + s3.list_units('C16')[:1] + s3.ctor_units('C16') + streams.units('C16')
+UNITS = s3.request_units('C16') + s3.prepare_units('C16') + s3.method_units('C16') + s3.list_units('C16')[:1] + s3.ctor_units('C16') + streams.units('C16')
+from specs import families as _families
+UNITS = _families.with_families('C16', UNITS)
 BOUNDED = [{'name': 'C16.wire', 'script': 'bounded/c16_wire.py', 'timeout': 600, 'bound': 'EXHAUSTIVE per-byte encoding (256 values, path and query); wire scenarios: 3 (thorough: 6) payload sizes around the 128000-byte stream chunk x 3-4 names x prefixes/tokens over printable and non-ASCII alphabets, every adapter operation, independent SigV4'}]
 TRUSTED = [
     'vf symbolic executor (/verif/vf): encoding of the Python subset (DESIGN 2.2)',
